@@ -417,7 +417,7 @@ def match_known(pid, sig, known):
 
 # invariants that state one property's claim are reported by that property's check only (the others still
 # validate the same traces against everything else)
-INV_OWNER = {"NoLostWake": {"C17"}, "StepBound": {"C13"}}
+INV_OWNER = {"NoLostWake": {"C17"}, "StepBound": {"C13"}, "UnwindingTaskAbandoned": {"C14", "C12"}}
 
 
 def owned(pid, pr):
@@ -738,6 +738,26 @@ def run_c11(tier):
                 problems.append({"kind": "pct", "prog": by_id[m["prog"]], "detail": r, "sig": "pct/same-seed-different-run"})
             if r["execs"] != iters and not r.get("refused"):
                 problems.append({"kind": "pct", "prog": by_id[m["prog"]], "detail": r, "sig": "pct/iteration-count"})
+    # where the change points fall (two always-runnable tasks: every preemption is a change point)
+    from gen import op as _op, prog as _prog
+    pos_progs = [_prog(1, "pctpos", [[_op("spawn", v=1)] + [_op("store", o=0, v=i) for i in range(1, 5)], [_op("load", o=0) for _ in range(4)]], atomics=[0]),
+                 _prog(2, "pctpos", [[_op("spawn", v=1)] + [_op("fadd", o=0, v=1) for _ in range(6)], [_op("fadd", o=0, v=1) for _ in range(3)]], atomics=[0])]
+    pmeta, _ = vlib.run_enum(pos_progs, os.path.join(vlib.WORK, f"run-c11pos-{tier}"), cap=100,
+                             extra=("--mode", "pct", "--seed", str(vlib.seed()), "--positions", str(3000 if tier == "quick" else 40000)))
+    posrep = []
+    for m in pmeta:
+        if m.get("crashed"):
+            problems.append({"kind": "harness-crash", "prog": pos_progs[m["prog"] - 1], "stderr": m["stderr"], "sig": "pct/harness-crash"})
+            continue
+        nexec += m["execs"]
+        posrep.append({k: m[k] for k in ("prog", "depth", "execs", "k", "expected", "observed", "max_change_points_in_one_execution")})
+        if m["max_change_points_in_one_execution"] > m["depth"] - 1:
+            problems.append({"kind": "pct", "prog": pos_progs[m["prog"] - 1], "detail": posrep[-1], "sig": "pct/more-than-depth-1-change-points"})
+        for name, e, o in zip(("first", "last", "middle"), m["expected"], m["observed"]):
+            # change points are drawn uniformly from the steps 1 .. K-1 of the running estimate K
+            if e >= 40 and not (0.6 * e <= o <= 1.3 * e):
+                problems.append({"kind": "pct", "prog": pos_progs[m["prog"] - 1], "detail": posrep[-1],
+                                 "sig": f"pct/change-point-positions-not-uniform/{name}"})
     logf = os.path.join(out, "pctlog.ndjson")
     nlines = 0
     with open(logf, "w") as o:
@@ -762,7 +782,7 @@ def run_c11(tier):
     totals = {"trace_states": res["states"] + dres["states"], "trace_transitions": res["transitions"] + dres["transitions"],
               "leaves_reached": nexec, "programs": len(progs)}
     extra = {"pct_executions": nexec, "decision_log_lines": nlines, "bug_hit_rates": bugrep,
-             "drill_depth1_claim_rejected": not dacc, "exhaustive": False,
+             "drill_depth1_claim_rejected": not dacc, "exhaustive": False, "change_point_positions": posrep,
              "checker_cmd": "tlc -config TracePct.cfg TracePct.tla (depth-first queue)"}
     spec = {"assume": ["task ids < 16 (the shuffled part of the priority map); the insertion path for more tasks is not exercised",
                        "detection probability on the implementation is a fixed-seed measurement against the 1/(n k^(d-1)) bound"]}
@@ -978,6 +998,9 @@ def run_property(pid, tier):
         return run_c11(tier)
     if pid == "C12":
         return run_c12(tier)
+    if pid == "C19":
+        import wrapchecks
+        return wrapchecks.run_c19(tier)
     if pid not in SHUTTLE_PROPS:
         raise vlib.ToolError(f"no check registered for {pid}")
     t0 = time.time()
